@@ -299,6 +299,27 @@ def m_int(it, args, kwargs, node):
     raise Unsupported(f'int({type(v).__name__})')
 
 
+def beint(it, v):
+    """int.from_bytes(v, 'big') as a term: exact for short concrete lengths, else the ghost function BEINT"""
+    n = simp(zint(v.length))
+    if isinstance(n, int) and n <= 16:
+        return _be_value(it, v, 0, n) if n else 0
+    from spec.tlv import beint_term, beint_axioms
+    for k in range(8):
+        it.run.read(v, k)
+    it.run.assume(beint_axioms(it.run.heap, v))
+    return beint_term(it.run.heap, v)
+
+
+def m_int_from_bytes(it, args, kwargs, node):
+    USED.add('int.from_bytes (big-endian; exact for lengths 0,1,2,4,8)')
+    v = _need_view(it, args[0], node)
+    order = args[1] if len(args) > 1 else kwargs.get('byteorder', 'big')
+    if order != 'big':
+        raise Unsupported('little-endian from_bytes')
+    return beint(it, v)
+
+
 def m_bool(it, args, kwargs, node):
     return it.truth(args[0]) if args else False
 
@@ -479,7 +500,7 @@ BUILTIN_MODELS = {
     int: m_int, bool: m_bool, str: m_str, repr: m_repr, max: m_minmax('max'), min: m_minmax('min'),
     any: m_any, all: m_all, issubclass: m_issubclass, type: m_type, getattr: m_getattr, hasattr: m_hasattr,
     setattr: m_setattr, id: m_id, dict: m_dict, set: m_set, sorted: m_sorted, zip: m_zip, abs: m_abs, sum: m_sum,
-    callable: m_callable, print: m_print, hashlib.sha256: m_sha256,
+    callable: m_callable, print: m_print, hashlib.sha256: m_sha256, int.from_bytes: m_int_from_bytes,
 }
 try:
     import _hashlib
